@@ -28,40 +28,31 @@ impl PatchTrait for PatchArm {
         let patch_size = 12;
         let original_bytes = unsafe { read_bytes(src_ptr as *mut u8, patch_size) };
 
-        let instructions: [u32; 3] = if is_src_thumb {
-            [
-                // ldr r7, [pc, #0] ; 0x4F00. It will load pc + 0 into r6, so the target word
-                // bx r7 ; 4738
-                // Reversed because of little endian
-                0x47384F00,
-                // .word target
-                target.as_ptr() as u32,
-                // .word anything (unused)
-                0x00000000,
-            ]
-        } else {
-            [
-                // ldr r9, [pc, #-0] ; Load pc + 8 into r9, so the target word
-                0xE51F9000,
-                // bx r9 ; Branch to the target function
-                0xE12FFF19,
-                // .word target
-                target.as_ptr() as u32,
-            ]
-        };
-
+        // Both sequences use only `ip` (r12), the AAPCS intra-procedure-call scratch register, so
+        // no register that a callee must preserve (r4-r11) is modified on the way to the target.
+        let target_word = (target.as_ptr() as u32).to_le_bytes();
         let mut patch = [0u8; 12];
 
-        patch[0..4].copy_from_slice(&instructions[0].to_le_bytes());
-        patch[4..8].copy_from_slice(&instructions[1].to_le_bytes());
-        patch[8..12].copy_from_slice(&instructions[2].to_le_bytes());
+        if is_src_thumb {
+            // ldr.w ip, [pc, #4] ; bx ip
+            patch[0..4].copy_from_slice(&[0xDF, 0xF8, 0x04, 0xC0]);
+            patch[4..6].copy_from_slice(&[0x60, 0x47]);
 
-        // In thumb mode, if the source is not aligned on 32 bit, add a NOP to align it, so the target adress is also aligned on 32 bit
-        // If we don't do that, the load adress will be misaligned and will load the bx instruction instead of the target function.
-        if is_src_thumb && (src_ptr as usize % 4 != 0) {
-            patch.rotate_right(2);
-            patch[0] = 0xC0;
-            patch[1] = 0x46; // NOP instruction in Thumb mode
+            // The literal must be word-aligned and `pc` reads as Align(entry + 4, 4): when the
+            // entry is only halfword-aligned that is entry + 2, so the literal sits 2 bytes earlier
+            // and the NOP (never executed) pads the other end.
+            if src_ptr as usize % 4 == 0 {
+                patch[6..8].copy_from_slice(&[0xC0, 0x46]); // NOP
+                patch[8..12].copy_from_slice(&target_word);
+            } else {
+                patch[6..10].copy_from_slice(&target_word);
+                patch[10..12].copy_from_slice(&[0xC0, 0x46]); // NOP
+            }
+        } else {
+            // ldr ip, [pc, #-0] ; bx ip ; .word target
+            patch[0..4].copy_from_slice(&0xE51FC000u32.to_le_bytes());
+            patch[4..8].copy_from_slice(&0xE12FFF1Cu32.to_le_bytes());
+            patch[8..12].copy_from_slice(&target_word);
         }
 
         unsafe {
